@@ -21,8 +21,8 @@
 (assert
  (>= total_a!5 1))
 (assert
- (let ((?x37 (+ (+ completed_a!2 failed_a!3) running_a!4)))
- (<= ?x37 total_a!5)))
+ (let ((?x39 (+ (+ completed_a!2 failed_a!3) running_a!4)))
+ (<= ?x39 total_a!5)))
 (assert
  (>= completed_b!7 0))
 (assert
@@ -36,29 +36,29 @@
 (assert
  (<= (+ (+ completed_b!7 failed_b!8) running_b!9) total_b!10))
 (assert
- (let (($x62 (<= running_a!4 0)))
- (not $x62)))
+ (let (($x64 (<= running_a!4 0)))
+ (not $x64)))
 (assert
- (let (($x61 (<= running_b!9 0)))
- (not $x61)))
+ (let (($x63 (<= running_b!9 0)))
+ (not $x63)))
 (assert
  (>= running_a!4 1))
 (assert
  (>= t!12 t0!1))
 (assert
- (let ((?x39 (+ running_a!4 running_b!9)))
- (let ((?x77 (to_real ?x39)))
- (and (distinct ?x77 0.0) true))))
+ (let ((?x41 (+ running_a!4 running_b!9)))
+ (let ((?x79 (to_real ?x41)))
+ (and (distinct ?x79 0.0) true))))
 (assert
- (let (($x97 (= running_a!4 1)))
- (not $x97)))
+ (let (($x99 (= running_a!4 1)))
+ (not $x99)))
 (assert
- (let ((?x39 (+ running_a!4 running_b!9)))
-(let ((?x90 (- ?x39 1)))
-(let (($x103 (= ?x90 (+ ?x39 (- 1)))))
-(let ((?x89 (- running_a!4 1)))
-(let (($x101 (= ?x89 (+ running_a!4 (- 1)))))
-(let (($x83 (= completed_a!2 (+ completed_a!2 0))))
-(let (($x70 (and $x83 (= (+ failed_a!3 1) (+ failed_a!3 1)) $x101 $x103)))
-(not $x70)))))))))
+ (let ((?x41 (+ running_a!4 running_b!9)))
+(let ((?x92 (- ?x41 1)))
+(let (($x105 (= ?x92 (+ ?x41 (- 1)))))
+(let ((?x91 (- running_a!4 1)))
+(let (($x103 (= ?x91 (+ running_a!4 (- 1)))))
+(let (($x85 (= completed_a!2 (+ completed_a!2 0))))
+(let (($x72 (and $x85 (= (+ failed_a!3 1) (+ failed_a!3 1)) $x103 $x105)))
+(not $x72)))))))))
 (check-sat)
